@@ -11,6 +11,7 @@ and the completion values; the differential harness covers that part (partial).
 import Compio.Lemmas.SockMap
 import Compio.Lemmas.RecvMsgOut
 import Compio.Lemmas.MultiStream
+import Compio.Gen.SockRecv
 
 namespace Compio.C14
 
@@ -608,6 +609,324 @@ example : (Inc.take 3 (Inc.new [[⟨.fd 7, true⟩, ⟨.fd 8, true⟩, ⟨.fd 9,
   decide
 
 end MultiStream
+
+/-! ## (4) tie to the sources: theorems over the regenerated `Gen/SockRecv.lean`
+
+`Gen/SockRecv.lean` is rewritten from /repo by the extractor target `SockRecv` at every check
+(compio-driver `op/managed/iour.rs`: `io_uring_recvmsg_out`, `NLEN`, `RecvMsgMultiResultImpl::{new,data,addr,
+ancillary,flags}`; `op/socket/unix.rs`: the value each polling receive `call()` returns; compio-net
+`socket/mod.rs`: the tail of `recv*`).  The theorems say: the hand model the driver executes IS what the source
+says — a change of an offset expression, a dropped term, a swapped field, a removed / added clamp, another
+advance function breaks one of these proofs without any test case having to sample it. -/
+
+section GenTie
+open Compio.RecvMsgOut
+open Compio.Gen.SockRecv (Tail)
+
+/-- the header as the generated field offsets read it -/
+def genHdr (buf : Bytes) : Gen.SockRecv.Hdr :=
+  { namelen := leU32 buf Gen.SockRecv.off_namelen, controllen := leU32 buf Gen.SockRecv.off_controllen,
+    payloadlen := leU32 buf Gen.SockRecv.off_payloadlen, flags := leU32 buf Gen.SockRecv.off_flags }
+
+/-- `readHdr` reads every field at the offset the `#[repr(C)]` struct in the source gives it. -/
+theorem gen_header_fields (buf : Bytes) :
+    (readHdr buf).namelen = (genHdr buf).namelen ∧ (readHdr buf).controllen = (genHdr buf).controllen ∧
+    (readHdr buf).payloadlen = (genHdr buf).payloadlen ∧ (readHdr buf).flags = (genHdr buf).flags ∧
+    HDR = Gen.SockRecv.HDR ∧ NLEN = Gen.SockRecv.NLEN :=
+  ⟨rfl, rfl, rfl, rfl, rfl, rfl⟩
+
+/-- the model's `new` = the two asserts of the source with the source's `total_len` sum (all buffers, all `clen`). -/
+theorem gen_new_eq (buf : Bytes) (clen : Nat) :
+    RecvMsgOut.new buf clen =
+      if buf.length < Gen.SockRecv.newMinLen then .panic
+      else if Gen.SockRecv.newTotal clen (genHdr buf) ≥ USIZE then .panic
+      else if buf.length < Gen.SockRecv.newTotal clen (genHdr buf) then .panic
+      else .ok ⟨buf, clen⟩ := rfl
+
+/-- the model's `data()` slices at the source's offset expression. -/
+theorem gen_data_eq (p : Parsed) :
+    p.data = if Gen.SockRecv.dataOff p.clen (genHdr p.buf) > p.buf.length then .panic
+             else .ok (p.buf.drop (Gen.SockRecv.dataOff p.clen (genHdr p.buf))) := rfl
+
+/-- the model's `ancillary()` is the source's range `[ancStart .. ancEnd]`. -/
+theorem gen_ancillary_eq (p : Parsed) :
+    p.ancillary = if Gen.SockRecv.ancEnd p.clen (genHdr p.buf) > p.buf.length then .panic
+      else .ok ((p.buf.drop (Gen.SockRecv.ancStart p.clen (genHdr p.buf))).take
+            (Gen.SockRecv.ancEnd p.clen (genHdr p.buf) - Gen.SockRecv.ancStart p.clen (genHdr p.buf))) := by
+  have h : Gen.SockRecv.ancEnd p.clen (genHdr p.buf) - Gen.SockRecv.ancStart p.clen (genHdr p.buf)
+      = (readHdr p.buf).controllen := by
+    show (Gen.SockRecv.HDR + Gen.SockRecv.NLEN) + (genHdr p.buf).controllen - (Gen.SockRecv.HDR + Gen.SockRecv.NLEN) = _
+    rw [Nat.add_sub_cancel_left]; rfl
+  rw [h]; rfl
+
+/-- the model's `addr()`: `None` test, source offset, copy length and destination size as in the source. -/
+theorem gen_addr_eq (p : Parsed) :
+    p.addr = if Gen.SockRecv.addrIsNone (genHdr p.buf) = true then .ok none
+      else if Gen.SockRecv.addrCopyLen (genHdr p.buf) > Gen.SockRecv.NLEN then .ub
+      else .ok (some ((p.buf.drop (Gen.SockRecv.addrOff p.clen (genHdr p.buf))).take
+            (Gen.SockRecv.addrCopyLen (genHdr p.buf)))) := by
+  have e : (Gen.SockRecv.addrIsNone (genHdr p.buf) = true) ↔ (readHdr p.buf).namelen = 0 := by
+    show (((genHdr p.buf).namelen == 0) = true) ↔ _
+    rw [Nat.beq_eq_true_eq]; exact Iff.rfl
+  by_cases h0 : (readHdr p.buf).namelen = 0
+  · rw [if_pos (e.mpr h0)]; unfold Parsed.addr; simp only [h0, if_true]
+  · rw [if_neg (fun h => h0 (e.mp h))]; unfold Parsed.addr; simp only [h0, if_false]; rfl
+
+/-- the model's `flags()` returns the field the source returns. -/
+theorem gen_flags_eq (p : Parsed) : p.flags = Gen.SockRecv.flagsOf (genHdr p.buf) := rfl
+
+/-- Stated over the generated offsets alone: the areas the accessors address are laid out back to back exactly as
+the kernel writes them — header, name area of `NLEN`, control area of the registered `clen`, payload — and `new`'s
+bound is the end of the payload.  (Dropping or adding a term in any offset expression of the source breaks this.) -/
+theorem gen_layout_consistent (clen : Nat) (h : Gen.SockRecv.Hdr) :
+    Gen.SockRecv.newMinLen = 16 ∧
+    Gen.SockRecv.addrOff clen h = 16 ∧
+    Gen.SockRecv.ancStart clen h = Gen.SockRecv.addrOff clen h + 128 ∧
+    Gen.SockRecv.ancEnd clen h = Gen.SockRecv.ancStart clen h + h.controllen ∧
+    Gen.SockRecv.dataOff clen h = Gen.SockRecv.ancStart clen h + clen ∧
+    Gen.SockRecv.newTotal clen h = Gen.SockRecv.dataOff clen h + h.payloadlen :=
+  ⟨rfl, rfl, rfl, rfl, rfl, rfl⟩
+
+/-- Kernel-contract buffer read through the GENERATED offsets and header fields: the bytes from `dataOff` on are the
+payload, the range `[ancStart, ancEnd)` is the control data, `addrCopyLen` bytes at `addrOff` are the source address
+(and `addrIsNone` is false for a non-empty name), `flagsOf` are the flags. -/
+theorem gen_layout_roundtrip (name ctl payload : Bytes) (flags clen : Nat)
+    (hn : name.length ≤ NLEN) (hc : ctl.length ≤ clen) (hcl : clen < 2 ^ 32)
+    (hp : payload.length < 2 ^ 32) (hf : flags < 2 ^ 32) :
+    let buf := layout name ctl payload flags clen
+    let h := genHdr buf
+    buf.drop (Gen.SockRecv.dataOff clen h) = payload ∧
+    (buf.drop (Gen.SockRecv.ancStart clen h)).take (Gen.SockRecv.ancEnd clen h - Gen.SockRecv.ancStart clen h) = ctl ∧
+    (name.length ≠ 0 → Gen.SockRecv.addrIsNone h = false ∧
+      (buf.drop (Gen.SockRecv.addrOff clen h)).take (Gen.SockRecv.addrCopyLen h) = name) ∧
+    Gen.SockRecv.flagsOf h = flags := by
+  intro buf h
+  obtain ⟨p, hnew, hd, ha, had, hfl⟩ := recvmsg_out_roundtrip name ctl payload flags clen hn hc hcl hp hf
+  obtain ⟨hb, hcl', _⟩ := new_ok_bounds _ _ _ hnew
+  rw [gen_data_eq, hb, hcl'] at hd
+  rw [gen_ancillary_eq, hb, hcl'] at ha
+  rw [gen_addr_eq, hb, hcl'] at had
+  rw [gen_flags_eq, hb] at hfl
+  refine ⟨?_, ?_, ?_, hfl⟩
+  · split at hd
+    · cases hd
+    · exact R.ok.inj hd
+  · split at ha
+    · cases ha
+    · exact R.ok.inj ha
+  · intro hne
+    rw [if_neg hne] at had
+    by_cases hnone : Gen.SockRecv.addrIsNone (genHdr (layout name ctl payload flags clen)) = true
+    · rw [if_pos hnone] at had; cases had
+    · rw [if_neg hnone] at had
+      refine ⟨by simpa using hnone, ?_⟩
+      split at had
+      · cases had
+      · exact Option.some.inj (R.ok.inj had)
+
+example : (layout [2, 0, 0x1f, 0x90] [] [0x68, 0x69] 0 0).drop
+    (Gen.SockRecv.dataOff 0 (genHdr (layout [2, 0, 0x1f, 0x90] [] [0x68, 0x69] 0 0))) = [0x68, 0x69] :=
+  (gen_layout_roundtrip [2, 0, 0x1f, 0x90] [] [0x68, 0x69] 0 0 (by decide) (by decide) (by decide)
+    (by decide) (by decide)).1
+
+/-- the clamp table of the model (`clamps`, used by `compLen` and by the driver's predictions) is the table read
+from the `call()` bodies in `op/socket/unix.rs`; io_uring cannot clamp (`OpCode::set_result` gets `&io::Result`). -/
+theorem gen_clamps_poll :
+    clamps .recv .poll = Gen.SockRecv.pollClampsRecv ∧
+    clamps .recvVectored .poll = Gen.SockRecv.pollClampsRecvVectored ∧
+    clamps .recvFrom .poll = Gen.SockRecv.pollClampsRecvFrom ∧
+    clamps .recvFromVectored .poll = Gen.SockRecv.pollClampsRecvFromVectored ∧
+    clamps .recvMsg .poll = Gen.SockRecv.pollClampsRecvMsg ∧
+    ∀ op, clamps op .uring = false :=
+  ⟨rfl, rfl, rfl, rfl, rfl, fun op => by cases op <;> rfl⟩
+
+/-- single-buffer tail of `Socket::recv*` as described by the generated `Tail` -/
+def applyTail1 (t : Tail) (c : Comp) (b : Buf) : Res ((Nat × Option Bytes) × Buf) :=
+  (advanceTo b c.n).bind fun b' => .ok ((c.n, if t.addr then intoAddr c else none), b')
+
+/-- vectored tail -/
+def applyTailV (t : Tail) (c : Comp) (bs : List Buf) : Res ((Nat × Option Bytes) × List Buf) :=
+  (advanceVecTo bs c.n).bind fun bs' => .ok ((c.n, if t.addr then intoAddr c else none), bs')
+
+/-- `recv` / `recv_from`: the source builds `Recv` / `RecvFrom`, advances with `map_advanced` (`vec = false`),
+applies `map_addr` only for `recv_from`; the model's mapping functions are exactly that. -/
+theorem gen_tail_single :
+    Gen.SockRecv.recv = ⟨"Recv", false, false⟩ ∧ Gen.SockRecv.recvFrom.op = "RecvFrom" ∧
+    Gen.SockRecv.recvFrom.vec = false ∧
+    (∀ n b, mapRecv n b = (applyTail1 Gen.SockRecv.recv ⟨n, 0, [], 0, 0⟩ b).bind fun r => .ok (r.1.1, r.2)) ∧
+    (∀ c b, mapRecvFrom c b = applyTail1 Gen.SockRecv.recvFrom c b) := by
+  refine ⟨rfl, rfl, rfl, ?_, fun _ _ => rfl⟩
+  intro n b
+  simp only [mapRecv, applyTail1]
+  cases advanceTo b n <;> rfl
+
+/-- `recv_vectored` / `recv_from_vectored` / `recv_msg_vectored` (and `recv_msg` = its one-member case): ops,
+`map_vec_advanced`, `map_addr` as in the source. -/
+theorem gen_tail_vectored :
+    Gen.SockRecv.recvVectored = ⟨"RecvVectored", false, true⟩ ∧
+    Gen.SockRecv.recvFromVectored.op = "RecvFromVectored" ∧ Gen.SockRecv.recvFromVectored.vec = true ∧
+    Gen.SockRecv.recvMsgVectored.op = "RecvMsg" ∧ Gen.SockRecv.recvMsgVectored.vec = true ∧
+    Gen.SockRecv.recvMsgIsOneMemberVectored = true ∧
+    (∀ n bs, mapRecvVectored n bs =
+      (applyTailV Gen.SockRecv.recvVectored ⟨n, 0, [], 0, 0⟩ bs).bind fun r => .ok (r.1.1, r.2)) ∧
+    (∀ c bs, mapRecvFromVectored c bs = applyTailV Gen.SockRecv.recvFromVectored c bs) ∧
+    (∀ c bs ctl, mapRecvMsg c bs ctl =
+      (applyTailV Gen.SockRecv.recvMsgVectored c bs).bind fun r =>
+        (advanceTo ctl c.ctlLen).bind fun ctl' => .ok ((c.n, c.ctlLen, r.1.2, c.flags), (r.2, ctl'))) := by
+  refine ⟨rfl, rfl, rfl, rfl, rfl, rfl, ?_, fun _ _ => rfl, ?_⟩
+  · intro n bs
+    simp only [mapRecvVectored, applyTailV]
+    cases advanceVecTo bs n <;> rfl
+  · intro c bs ctl
+    simp only [mapRecvMsg, applyTailV]
+    cases advanceVecTo bs c.n <;> rfl
+
+end GenTie
+
+/-! ## (5) histories: every sequence of receive calls on a byte stream -/
+
+/-- one receive call on a stream socket, by buffer shape (fresh buffers) -/
+inductive RecvOp where
+  | one (cap : Nat)            -- `recv` / read half / `recv_from` into `Vec::with_capacity(cap)`
+  | vec (caps : List Nat)      -- `recv_vectored` / `recv_msg*` into fresh vectors of these capacities
+  deriving Repr
+
+def freshBufs (caps : List Nat) : List Buf := caps.map (Buf.vecOf [])
+
+/-- room the call offers to the kernel -/
+def room : RecvOp → Nat
+  | .one cap => cap
+  | .vec caps => totalCap (freshBufs caps)
+
+/-- one call: the kernel moves a prefix of the queue `q` into the buffer(s) (`kStream`, `write`/`scatter`), the
+completion goes through `mapRecv` / `mapRecvVectored`; result = (what the caller reads, what stays queued) -/
+def recvStep (q : Bytes) : RecvOp → Res (Bytes × Bytes)
+  | .one cap =>
+    (mapRecv (kStream q cap).1.length ((Buf.vecOf [] cap).write (kStream q cap).1)).bind fun r =>
+      .ok (r.2.vis.take r.1, (kStream q cap).2)
+  | .vec caps =>
+    (mapRecvVectored (kStream q (totalCap (freshBufs caps))).1.length
+        (scatter (freshBufs caps) (kStream q (totalCap (freshBufs caps))).1)).bind fun r =>
+      .ok (seen r.2 r.1, (kStream q (totalCap (freshBufs caps))).2)
+
+/-- a whole history of calls -/
+def recvAll : Bytes → List RecvOp → Res (Bytes × Bytes)
+  | q, [] => .ok ([], q)
+  | q, op :: r => (recvStep q op).bind fun s => (recvAll s.2 r).bind fun t => .ok (s.1 ++ t.1, t.2)
+
+def totalRoom : List RecvOp → Nat
+  | [] => 0
+  | op :: r => room op + totalRoom r
+
+theorem recvStep_exact (q : Bytes) (op : RecvOp) :
+    ∃ got rest, recvStep q op = .ok (got, rest) ∧ got ++ rest = q ∧ got.length = min (room op) q.length := by
+  cases op with
+  | one cap =>
+    have hw : (q.take cap).length ≤ cap := by simp; omega
+    obtain ⟨b', e, hv⟩ := recv_single_fresh cap (q.take cap) hw
+    refine ⟨q.take cap, q.drop cap, ?_, List.take_append_drop _ _, by simp [room]⟩
+    simp only [recvStep, kStream]
+    rw [e]
+    simp [Res.bind, hv]
+    exact List.take_of_length_le (by simp)
+  | vec caps =>
+    have hw : (q.take (totalCap (freshBufs caps))).length ≤ totalCap (freshBufs caps) := by simp; omega
+    have hwf : ∀ b ∈ freshBufs caps, b.WF' := by
+      intro b hb
+      obtain ⟨c, _, rfl⟩ := List.mem_map.mp hb
+      simp [Buf.WF', Buf.WF, Buf.vecOf]
+    have hl : ∀ b ∈ freshBufs caps, b.len = 0 := by
+      intro b hb
+      obtain ⟨c, _, rfl⟩ := List.mem_map.mp hb
+      simp [Buf.vecOf]
+    obtain ⟨bs', e, hs, _⟩ := recv_vectored_exact (freshBufs caps) _ hwf hw (guard_fresh _ _ hl)
+    refine ⟨q.take (totalCap (freshBufs caps)), q.drop (totalCap (freshBufs caps)), ?_,
+      List.take_append_drop _ _, by simp [room]⟩
+    simp only [recvStep, kStream]
+    rw [e]
+    simp only [Res.bind]
+    rw [hs]
+
+/-- **All histories.**  Whatever sequence of receive calls (single-buffer or vectored, any capacities, also 0) is
+made on a stream whose queue holds `q`: no call fails, what the caller has read in total followed by what is still
+queued is exactly `q` — nothing lost, duplicated or reordered — and the amount read is `min (Σ room) |q|`. -/
+theorem stream_history_exact (q : Bytes) (ops : List RecvOp) :
+    ∃ got rest, recvAll q ops = .ok (got, rest) ∧ got ++ rest = q ∧
+      got.length = min (totalRoom ops) q.length := by
+  induction ops generalizing q with
+  | nil => exact ⟨[], q, rfl, rfl, by simp [totalRoom]⟩
+  | cons op r ih =>
+    obtain ⟨g1, r1, e1, h1, l1⟩ := recvStep_exact q op
+    obtain ⟨g2, r2, e2, h2, l2⟩ := ih r1
+    refine ⟨g1 ++ g2, r2, ?_, ?_, ?_⟩
+    · simp [recvAll, e1, e2, Res.bind]
+    · rw [List.append_assoc, h2, h1]
+    · have hq : q.length = g1.length + r1.length := by rw [← h1]; simp
+      simp only [List.length_append, totalRoom]
+      omega
+
+/-- with enough room in total the receiver has read the sender's byte sequence, all of it, and the queue is empty
+(the next receive reports the end of the stream once the peer has shut down). -/
+theorem stream_history_complete (q : Bytes) (ops : List RecvOp) (h : q.length ≤ totalRoom ops) :
+    recvAll q ops = .ok (q, []) := by
+  obtain ⟨got, rest, e, ha, hl⟩ := stream_history_exact q ops
+  have hq : q.length = got.length + rest.length := by rw [← ha]; simp
+  have hr : rest = [] := List.eq_nil_of_length_eq_zero (by omega)
+  subst hr
+  rw [e]; simp at ha; rw [ha]
+
+example : recvAll [1, 2, 3, 4, 5, 6, 7] [.one 2, .vec [1, 0, 3], .one 0, .one 8] = .ok ([1, 2, 3, 4, 5, 6, 7], []) :=
+  stream_history_complete _ _ (by decide)
+
+
+/-- one datagram receive into a fresh `Vec::with_capacity(cap)`: (what the caller reads, `MSG_TRUNC`) -/
+def dgramStep (d : Bytes) (cap : Nat) : Res (Bytes × Bool) :=
+  (mapRecv (kDgram d cap).1.length ((Buf.vecOf [] cap).write (kDgram d cap).1)).bind fun r =>
+    .ok (r.2.vis.take r.1, (kDgram d cap).2)
+
+/-- a history of datagram receives on a socket whose queue holds `ds` (a receive on an empty queue waits: the
+history ends there); result = (items in order, datagrams still queued) -/
+def dgramAll : List Bytes → List Nat → Res (List (Bytes × Bool) × List Bytes)
+  | ds, [] => .ok ([], ds)
+  | [], _ :: _ => .ok ([], [])
+  | d :: ds, c :: cs => (dgramStep d c).bind fun x => (dgramAll ds cs).bind fun t => .ok (x :: t.1, t.2)
+
+theorem dgramStep_exact (d : Bytes) (cap : Nat) :
+    dgramStep d cap = .ok (d.take cap, decide (cap < d.length)) := by
+  have hw : (d.take cap).length ≤ cap := by simp; omega
+  obtain ⟨b', e, hv⟩ := recv_single_fresh cap (d.take cap) hw
+  simp only [dgramStep, kDgram]
+  rw [e]
+  simp [Res.bind, hv]
+  exact List.take_of_length_le (by simp)
+
+/-- **All datagram histories.**  The k-th receive returns the k-th queued datagram — each exactly once, in order —
+cut to the buffer's capacity (never beyond it), flagged truncated iff it did not fit; the datagrams not yet
+received stay queued unchanged. -/
+theorem dgram_history_exact (ds : List Bytes) (caps : List Nat) :
+    dgramAll ds caps = .ok ((List.zip ds caps).map (fun x => (x.1.take x.2, decide (x.2 < x.1.length))),
+      ds.drop caps.length) := by
+  induction ds generalizing caps with
+  | nil => cases caps <;> simp [dgramAll]
+  | cons d ds ih =>
+    cases caps with
+    | nil => simp [dgramAll]
+    | cons c cs => simp [dgramAll, dgramStep_exact, ih cs, Res.bind]
+
+theorem dgram_history_within_capacity (ds : List Bytes) (caps : List Nat) :
+    ∃ items rest, dgramAll ds caps = .ok (items, rest) ∧ items.length = min ds.length caps.length ∧
+      ∀ k (hk : k < items.length), ∃ c, caps[k]? = some c ∧ (items[k]).1.length ≤ c := by
+  refine ⟨_, _, dgram_history_exact ds caps, by simp, ?_⟩
+  intro k hk
+  have hk' : k < ds.length ∧ k < caps.length := by
+    simp at hk; omega
+  refine ⟨caps[k], by simp [hk'.2], ?_⟩
+  simp
+  omega
+
+example : dgramAll [[1, 2, 3], [], [4, 5]] [2, 4] = .ok ([([1, 2], true), ([], false)], [[4, 5]]) := by
+  rw [dgram_history_exact]; rfl
+
 
 /-! non-vacuity -/
 
